@@ -252,3 +252,91 @@ def sx_universe(u):
 def sx_link(cid, ast, universe, ext, recorded=frozenset()):
     return "(link %s %s %s %s)" % (cid, sx_list(sx_stmt(s, recorded) for s in ast), sx_universe(universe),
                                    sx_list("(P %s %d)" % (sx_str(k), v) for k, v in ext.items()))
+
+
+# ---------- Gallina terms (cases.v: the vm_compute cross-check of the extracted program) ----------
+
+def gq(s):
+    if any(ord(c) < 32 or ord(c) > 126 for c in s):
+        raise ValueError("non-printable")
+    return '"' + s.replace('"', '""') + '"'
+
+
+def g_list(items):
+    return "[" + "; ".join(items) + "]"
+
+
+def g_val(t, v):
+    if t == "str":
+        return gq(v)
+    if t == "N":
+        return "%d%%N" % int(v)
+    if t == "Z":
+        return "(%d)%%Z" % int(v)
+    if t == "bool":
+        return "true" if v else "false"
+    if t == "kind":
+        return {"object": "KObject", "archive": "KArchive", "pad": "KPad", "linker_offset": "KLinkerOffset",
+                "group": "KGroup"}[v]
+    if t == "style":
+        return {"splat": "Splat", "makerom": "Makerom"}[v]
+    if t == "smap":
+        return g_list("(%s, %s)" % (gq(k), gq(x)) for k, x in v.items())
+    if t == "pairs":
+        return g_list("(%s, %s)" % (gq(k), gq(x)) for k, x in v)
+    if t == "nmap":
+        return g_list("(%s, %d%%N)" % (gq(k), x) for k, x in v.items())
+    if t == "lmap":
+        return g_list("(%s, %s)" % (gq(k), g_list(gq(y) for y in x)) for k, x in v.items())
+    if isinstance(t, tuple) and t[0] in ("list", "!list"):
+        if t[1] == "str":
+            return g_list(gq(x) for x in v)
+        return g_list(g_record(t[1], x) for x in v)
+    if isinstance(t, tuple) and t[0] == "rec":
+        return g_record(t[1], v)
+    raise ValueError(t)
+
+
+def g_an(t, rec, key):
+    if key not in rec:
+        return "Absent"
+    if rec[key] is None:
+        return "Null"
+    return "(Value %s)" % g_val(t, rec[key])
+
+
+CONSTRUCTORS = {"file": "FileSerial", "gp": "GpSerial", "segment": "SegmentSerial", "settings": "SettingsSerial",
+                "class": "ClassSerial", "assign": "AssignSerial", "required": "RequiredSerial",
+                "assert": "AssertSerial", "document": "DocumentSerial"}
+
+
+def g_record(schema, rec):
+    fields = [g_list(gq(k) for k in rec if k not in known_keys(schema))]
+    for k, t in SCHEMAS[schema]:
+        if k == "@conds":
+            fields.append("(mkCondsSerial %s)" % " ".join(g_an("pairs", rec, c) for c in CONDS))
+        elif t == "keep":
+            if "keep_sections" not in rec:
+                fields.append("SKAbsent")
+            else:
+                v = rec["keep_sections"]
+                if isinstance(v, bool):
+                    fields.append("(SKBool %s)" % ("true" if v else "false"))
+                elif isinstance(v, list) and all(isinstance(x, str) for x in v):
+                    fields.append("(SKList %s)" % g_list(gq(x) for x in v))
+                else:
+                    fields.append("SKInvalid")
+        elif t == "!str":
+            fields.append(g_an("str", rec, k))
+        elif isinstance(t, tuple) and t[0].startswith("!"):
+            fields.append("None" if rec.get(k) is None else "(Some %s)" % g_val(t, rec[k]))
+        else:
+            fields.append(g_an(t, rec, k))
+    return "(%s %s)" % (CONSTRUCTORS[schema], " ".join(fields))
+
+
+def g_case(n, doc, opts, emit_version, partial, expected):
+    return ("Example xcheck_%d : String.eqb (run_case %s (Runtime %s %s) %s) %s = true.\n"
+            "Proof. vm_compute. reflexivity. Qed.\n" %
+            (n, g_record("document", doc), g_val("pairs", opts), "true" if emit_version else "false",
+             "true" if partial else "false", gq(expected)))
